@@ -124,7 +124,35 @@ async def open_acm(w, tid, nid):
     w.nstack[tid].pop()
 
 
-OPENERS = {"acm": open_acm, "plain": open_plain, "tryexc": open_tryexc, "tryfin": open_tryfin, "condret": open_condret}
+class NurseryWrapper:
+    """an async manager that merely wraps trio.open_nursery(); a registered unwrap_context hook tells stackscope"""
+
+    def __init__(self, inner):
+        self.inner = inner
+
+    def __bool__(self):
+        return False
+
+    async def __aenter__(self):
+        return await self.inner.__aenter__()
+
+    async def __aexit__(self, *exc):
+        return await self.inner.__aexit__(*exc)
+
+
+@stackscope.unwrap_context.register(NurseryWrapper)
+def _unwrap_nursery_wrapper(mgr, context):
+    return mgr.inner
+
+
+async def open_wrap(w, tid, nid):
+    async with NurseryWrapper(trio.open_nursery()) as n:
+        push(w, tid, nid, n)
+        await interp(w, tid)
+    w.nstack[tid].pop()
+
+
+OPENERS = {"wrap": open_wrap, "acm": open_acm, "plain": open_plain, "tryexc": open_tryexc, "tryfin": open_tryfin, "condret": open_condret}
 
 
 def check_ground_truth(w, tree):
